@@ -259,6 +259,53 @@ func c17StructCase(c *wk.Ctx, r *wk.Rand, idx int64) {
 // c17StructMissing: Unserialize into struct-mapped objects whose sub-objects sit in by-value fields. A required
 // sub-object that the input leaves out is reported at the sub-object's own property - not at a property inside a
 // sub-object that the input does not contain - at the top level, below a list and below a map.
+// c17NarrowFields: a number the schema allows but the Go field it is mapped to cannot hold is refused at that
+// property, wherever the struct-mapped object sits.
+func c17NarrowFields(c *wk.Ctx) {
+	wide := func() *gen.Shape { return &gen.Shape{Kind: gen.KInt} }
+	limits := &gen.Shape{Kind: gen.KObject, ID: "Limits", Struct: "P13", Props: []*gen.Prop{
+		{Name: "port", T: wide()}, {Name: "retries", T: wide()}, {Name: "limit", T: wide()}, {Name: "small", T: wide()}}}
+	job := &gen.Shape{Kind: gen.KObject, ID: "Job", Props: []*gen.Prop{{Name: "name", T: &gen.Shape{Kind: gen.KString}}, {Name: "limits", T: &gen.Shape{Kind: gen.KRef, RefID: "Limits"}}}}
+	root := &gen.Shape{Kind: gen.KObject, ID: "Root", Props: []*gen.Prop{
+		{Name: "one", T: &gen.Shape{Kind: gen.KRef, RefID: "Limits"}},
+		{Name: "jobs", T: &gen.Shape{Kind: gen.KList, Items: &gen.Shape{Kind: gen.KRef, RefID: "Job"}}}}}
+	shape := &gen.Shape{Kind: gen.KScope, Root: "Root", Objects: []*gen.Shape{root, job, limits}}
+	t, ok, _ := buildGuarded(shape)
+	if !ok {
+		c.Violation("C17:directed-shape-not-built", "the hand-written struct-mapped scope could not be built", map[string]any{"schema": shape.Describe()})
+		return
+	}
+	env := &gen.Env{}
+	descr := shape.Describe()
+	good := func() map[string]any {
+		return map[string]any{"port": int64(8080), "retries": int64(3), "limit": int64(10), "small": int64(-5)}
+	}
+	for _, bad := range []struct {
+		prop string
+		v    any
+	}{{"small", int64(128)}, {"small", int64(-129)}, {"port", int64(65536)}, {"port", int64(-1)}, {"retries", int64(-1)}, {"limit", int64(-7)}, {"small", uint64(300)}} {
+		for _, where := range []string{"top", "list"} {
+			l := good()
+			l[bad.prop] = bad.v
+			var raw map[string]any
+			var path []string
+			if where == "top" {
+				raw, path = map[string]any{"one": l}, []string{"one", bad.prop}
+			} else {
+				raw = map[string]any{"jobs": []any{map[string]any{"name": "a", "limits": good()}, map[string]any{"name": "b", "limits": l}}}
+				path = []string{"jobs", "1", "limits", bad.prop}
+			}
+			if ref.Denote(shape, raw, env).V != ref.Reject {
+				c.Count("skipped:not-must-reject")
+				continue
+			}
+			site := c17Site{path: path, chain: []string{"struct", "narrow-field"}, kind: "does-not-fit-the-go-field"}
+			c17Judge(c, t, descr, raw, site, "Unserialize", func() error { _, err := t.Unserialize(gen.CopyRaw(raw)); return err })
+			c.Count("struct_unserialize_injections")
+		}
+	}
+}
+
 func c17StructMissing(c *wk.Ctx) {
 	str := func() *gen.Shape { return &gen.Shape{Kind: gen.KString} }
 	intT := func() *gen.Shape { return &gen.Shape{Kind: gen.KInt} }
